@@ -15,6 +15,12 @@ Three independent things live here, each working on the same JSON-able tree desc
 
 Tree nodes (dicts; all numbers are strings ``p/q``):
   {"op":"poly","style":"s"|"a","polys":[[[c,[e0,..]],..],..]}      leaf, user function
+  {"op":"poly","style":"w","view":"self"|[start,stop,step],"polys":..} leaf, user function returning its input array
+                                                                     itself / the view x[start:stop:step] of it
+                                                                     (polys = the selected coordinates: same mathematics)
+  any function node may carry "share": key - all the nodes of a tree with the same key have the same description
+  and are ONE function object in the implementation (built once, used at every occurrence); the oracle, the
+  protocol line and the model see a plain tree: using one object several times is not observable
   {"op":"lin","A":[[..]],"b":[..]}                                   MDOLinearFunction
   {"op":"quad","Q":[[..]],"b":[..]|None,"c":c}                       MDOQuadraticFunction
   {"op":"add|sub|mul|div","a":node,"b":node|{"op":"num","v":c}|{"op":"arr","v":[..]}}
@@ -221,6 +227,17 @@ def frm(rows) -> list[list[Fraction]]:
 # --------------------------------------------------------------------------- shapes
 
 
+def view_indices(n: int, view) -> list[int]:
+    if view is None:
+        raise IllShaped("view leaf without a view")
+    return list(range(n)) if view == "self" else list(range(n))[slice(*view)]
+
+
+def view_polys(n: int, view) -> list:
+    """The polynomials of the user function x -> x (view "self") / x -> x[start:stop:step]."""
+    return [[["1", [int(j == i) for j in range(n)]]] for i in view_indices(n, view)]
+
+
 def out_dim(node: dict, n: int) -> int:
     """Output dimension of a node whose input dimension is n (raises IllShaped)."""
     op = node["op"]
@@ -229,6 +246,8 @@ def out_dim(node: dict, n: int) -> int:
             for _, e in p:
                 if len(e) != n:
                     raise IllShaped("poly arity")
+        if node.get("style") == "w" and node["polys"] != view_polys(n, node.get("view")):
+            raise IllShaped("the polynomials of a view leaf are the coordinates its view selects")
         return len(node["polys"])
     if op == "lin":
         if any(len(r) != n for r in node["A"]) or len(node["b"]) != len(node["A"]):
@@ -320,6 +339,77 @@ def children(node: dict) -> list[dict]:
     if "a" in node:
         return [node["a"]]
     return []
+
+
+def share_classes(tree: dict) -> dict[int, list[int]]:
+    """id(node) -> ids of all the nodes of the tree that are the same function object in the implementation
+    (nodes with the same "share" key, and the nodes at the same position below them)."""
+    parent: dict[int, int] = {}
+
+    def find(a: int) -> int:
+        parent.setdefault(a, a)
+        while parent[a] != a:
+            parent[a] = parent[parent[a]]
+            a = parent[a]
+        return a
+
+    def par(a: dict, b: dict) -> None:
+        ra, rb = find(id(a)), find(id(b))
+        if ra != rb:
+            parent[ra] = rb
+        for ca, cb in zip(children(a), children(b)):
+            par(ca, cb)
+
+    firsts: dict[Any, dict] = {}
+
+    def visit(node: dict) -> None:
+        find(id(node))
+        sk = node.get("share")
+        if sk is not None:
+            if sk in firsts:
+                par(firsts[sk], node)
+            else:
+                firsts[sk] = node
+        for c in children(node):
+            visit(c)
+
+    visit(tree)
+    classes: dict[int, list[int]] = {}
+    for a in list(parent):
+        classes.setdefault(find(a), []).append(a)
+    return {a: classes[find(a)] for a in parent}
+
+
+def shared_nodes(tree: dict) -> list[dict]:
+    """All the nodes lying in a shared sub-tree (the node carrying the key included)."""
+    out: list[dict] = []
+
+    def visit(node: dict, inside: bool) -> None:
+        inside = inside or node.get("share") is not None
+        if inside:
+            out.append(node)
+        for c in children(node):
+            visit(c, inside)
+
+    visit(tree, False)
+    return out
+
+
+def share_consistent(tree: dict) -> bool:
+    """All the nodes with one share key have the same description."""
+    import json as _json
+
+    seen: dict[Any, str] = {}
+
+    def visit(node: dict) -> bool:
+        sk = node.get("share")
+        if sk is not None:
+            d = _json.dumps(node, sort_keys=True)
+            if seen.setdefault(sk, d) != d:
+                return False
+        return all(visit(c) for c in children(node))
+
+    return visit(tree)
 
 
 def tree_ops(node: dict) -> list[str]:
@@ -638,6 +728,9 @@ class PolyLeaf:
     def __init__(self, node: dict, label: str, guard: Guard) -> None:
         self.polys = [[(Fraction(c), list(e)) for c, e in p] for p in node["polys"]]
         self.style = node["style"]
+        self.view = node.get("view")
+        if self.style == "w" and self.view is None:
+            raise IllShaped("view leaf without a view")
         self.label = label
         self.guard = guard
 
@@ -673,6 +766,10 @@ class PolyLeaf:
         return vals, jac
 
     def func(self, x):
+        if self.style == "w":
+            # a user function that selects components of its input: it returns the array it receives or a view of
+            # it (no copy) - legitimate, and whoever calls it must not reuse the storage of that argument
+            return x if self.view == "self" else x[slice(*self.view)]
         vals, _ = self._eval(x)
         if getattr(x, "dtype", None) == object:
             return vals[0] if self.style == "s" else np.array(vals, dtype=object)
@@ -712,8 +809,20 @@ class Impl:
         self.leaf_objs: dict[int, Any] = {} if reuse is None else reuse.leaf_objs  # id(leaf node) -> object
         self.objects: list[tuple[dict, Any]] = []  # (node, MDOFunction)
         self.snapshots: list[tuple[str, Any, np.ndarray]] = []  # (label, getter, pristine copy)
+        self.shared: dict[Any, tuple[dict, Any]] = {}  # share key -> (first node, the ONE object of all its occurrences)
+        self.by_node: dict[int, Any] = {}  # id(node) -> object (every occurrence of a shared node included)
+        self.shared_uses = 0
         self._count = 0
         self.root = self.build(tree, n)
+
+    def _alias(self, node: dict, first: dict) -> None:
+        if id(first) in self.by_node:
+            self.by_node[id(node)] = self.by_node[id(first)]
+        for c, f in zip(children(node), children(first)):
+            self._alias(c, f)
+
+    def object_of(self, node: dict):
+        return self.by_node[id(node)]
 
     def resnap(self) -> None:
         """Take the pristine copies again (after a deliberate edit of a public parameter)."""
@@ -742,6 +851,12 @@ class Impl:
         from gemseo.core.mdo_functions.taylor_polynomials import compute_quadratic_approximation
 
         op = node["op"]
+        sk = node.get("share")
+        if sk is not None and sk in self.shared:
+            first, obj = self.shared[sk]
+            self._alias(node, first)
+            self.shared_uses += 1
+            return obj
         self._count += 1
         tag = f"{op}#{self._count}"
         if op == "num":
@@ -839,6 +954,9 @@ class Impl:
         if op in ("poly", "lin", "quad"):
             self.leaf_objs[id(node)] = obj
         self.objects.append((node, obj))
+        self.by_node[id(node)] = obj
+        if sk is not None:
+            self.shared[sk] = (node, obj)
         # public coefficient arrays of linear / quadratic objects are operand values too
         if isinstance(obj, MDOLinearFunction):
             self._snap(f"coefficients of the linear function {tag}", lambda o=obj: o.coefficients)
